@@ -139,6 +139,7 @@ structure LoadRes (d d' : Dom) (p : Id) (rp : NodeRec) (newKids ids : List Id) :
   par : ∃ rp', d'.get? p = some rp' ∧ rp'.kind = rp.kind ∧ rp'.parent = rp.parent ∧
     rp'.attrs = rp.attrs ∧ rp'.data = rp.data ∧ rp'.kids = rp.kids ++ newKids
   range : ∀ x ∈ ids, d.next ≤ x ∧ x < d'.next
+  sorted : ids.Pairwise (· < ·)
 
 theorem lt_of_get {d : Dom} (hf : Fresh d) {p : Id} {rp : NodeRec} (hp : d.get? p = some rp) : p < d.next := by
   apply Classical.byContradiction
@@ -161,7 +162,7 @@ theorem leaf_spec (d : Dom) (p : Id) (rp : NodeRec) (k : Kind) (s : String) (hf 
   have hc1 : (d.create k s).1.get? d.next = some { kind := k, data := s } := by
     rw [Dom.get?_create]; simp
   have hget := insert_fresh (d.create k s).1 p d.next rp { kind := k, data := s } hp1 hpe hc1 rfl hne
-  refine ⟨⟨?_, ?_, ?_, ?_, ?_⟩, ?_⟩
+  refine ⟨⟨?_, ?_, ?_, ?_, ?_, by simp⟩, ?_⟩
   · intro x hx
     have hx' : d.next + 1 ≤ x := by simpa [d2] using hx
     have h1 : x ≠ d.next := by omega_nat
@@ -250,7 +251,7 @@ theorem load_spec : (t : HTree) → ∀ (p : Id) (d : Dom) (rp : NodeRec), Fresh
       simp [loadTree, Dom.createElement, d3, d2, d1]
     rw [e]
     obtain ⟨rid, hrid, hkid, hparid, hatid, hdid, hkidsid⟩ := hres.par
-    refine ⟨⟨hres.fresh, ?_, ?_, ?_, ?_⟩, rfl, ?_⟩
+    refine ⟨⟨hres.fresh, ?_, ?_, ?_, ?_, ?_⟩, rfl, ?_⟩
     · have := hres.le; rw [hn3] at this
       show d.next ≤ (loadTrees kids d.next d3).1.next
       omega_nat
@@ -276,6 +277,11 @@ theorem load_spec : (t : HTree) → ∀ (p : Id) (d : Dom) (rp : NodeRec), Fresh
       · have := hres.range x hx
         rw [hn3] at this
         exact ⟨by omega_nat, this.2⟩
+    · simp only [idsOf, List.pairwise_cons]
+      refine ⟨fun x hx => ?_, hres.sorted⟩
+      have := hres.range x hx
+      rw [hn3] at this
+      omega_nat
     · simp only [real]
       refine ⟨rid, hrid, by rw [hkid, hk2], by rw [hparid], ?_, by rw [hkidsid]; simp [hkids2], hnodup, hreal⟩
       rw [hatid]; simpa using hat2
@@ -285,7 +291,7 @@ theorem loadL_spec : (ts : List HTree) → ∀ (p : Id) (d : Dom) (rp : NodeRec)
       realL (loadTrees ts p d).1 ts (loadTrees ts p d).2 p ∧ ((loadTrees ts p d).2.map IdTree.id).Nodup
   | [], p, d, rp, hf, hp, _, _ => by
     simp only [loadTrees, List.map_nil, idsOfL, realL]
-    exact ⟨⟨hf, Nat.le_refl _, fun _ _ _ => rfl, ⟨rp, hp, rfl, rfl, rfl, rfl, by simp⟩, by simp⟩, trivial,
+    exact ⟨⟨hf, Nat.le_refl _, fun _ _ _ => rfl, ⟨rp, hp, rfl, rfl, rfl, rfl, by simp⟩, by simp, by simp⟩, trivial,
       List.nodup_nil⟩
   | t :: ts, p, d, rp, hf, hp, hpe, hnd => by
     simp only [nodupAttrsL, Bool.and_eq_true] at hnd
@@ -298,7 +304,7 @@ theorem loadL_spec : (ts : List HTree) → ∀ (p : Id) (d : Dom) (rp : NodeRec)
       simp [loadTrees]
     rw [e]
     obtain ⟨rp2, hrp2, hk2, hpar2, hat2, hd2, hkids2⟩ := h2.par
-    refine ⟨⟨h2.fresh, Nat.le_trans h1.le h2.le, ?_, ?_, ?_⟩, ?_, ?_⟩
+    refine ⟨⟨h2.fresh, Nat.le_trans h1.le h2.le, ?_, ?_, ?_, ?_⟩, ?_, ?_⟩
     · intro x hx hxp
       rw [h2.frame x (Nat.lt_of_lt_of_le hx h1.le) hxp, h1.frame x hx hxp]
     · refine ⟨rp2, hrp2, by rw [hk2, hk1], by rw [hpar2, hpar1], by rw [hat2, hat1], by rw [hd2, hd1], ?_⟩
@@ -311,6 +317,10 @@ theorem loadL_spec : (ts : List HTree) → ∀ (p : Id) (d : Dom) (rp : NodeRec)
         exact ⟨this.1, Nat.lt_of_lt_of_le this.2 h2.le⟩
       · have := h2.range x hx
         exact ⟨Nat.le_trans h1.le this.1, this.2⟩
+    · simp only [idsOfL, List.pairwise_append]
+      refine ⟨h1.sorted, h2.sorted, fun x hx y hy => ?_⟩
+      have := h1.range x hx; have := h2.range y hy
+      omega_nat
     · simp only [realL]
       refine ⟨real_congr t _ p ?_ hreal1, hreal2⟩
       intro x hx
